@@ -4,15 +4,26 @@ Import ListNotations.
 Require Export MV.Common.Interleave MV.C05.Model MV.C05.Spec.
 Open Scope N_scope.
 
+(* API calls of a case.  Besides the four calls of the machine, the HistogramFn entry points of the
+   bucket (metrics-util/src/storage/mod.rs): record(v) = push(v) (an [XCall (CPush v)]), and
+   record_many(v, n) - the trait's default: n times record(v) - which the machine runs as n
+   consecutive push calls, each with its own call index (= its own ghost identity); n = 0 is no
+   call at all. *)
+Inductive xcall := XCall (c : call) | XMany (v n : N).
+Definition expand_prog (p : list xcall) : list call :=
+  flat_map (fun x => match x with XCall c => [c] | XMany v n => repeat (CPush v) (N.to_nat n) end) p.
+Definition plain (ps : list (list call)) : list (list xcall) := map (map XCall) ps.
+
 (* a case: the per-thread programs and a schedule (thread indices) *)
-Definition case := (list (list call) * list N)%type.
+Definition case := (list (list xcall) * list N)%type.
+Definition progs_of (c : case) : list (list call) := map expand_prog (fst c).
 
 (* observable: step trace, per-thread results (oldest first), everybody finished, the slices a
    final single-threaded data_with shows, anomaly count reported by the driver *)
 Definition OUT := (list (N * N) * list (list res) * bool * list (list val) * N)%type.
 
 Definition BS : nat := 64.            (* BLOCK_SIZE on 64-bit targets *)
-Definition rr_fuel : nat := 1500.     (* rounds of the round-robin tail *)
+Definition rr_fuel : nat := 3000.     (* rounds of the round-robin tail *)
 
 (* the final sequential read: a dedicated thread running one data_with alone *)
 Definition final_data (B : nat) (fxa fxc : bool) (s : shared) : list (list val) :=
@@ -23,7 +34,7 @@ Definition final_data (B : nat) (fxa fxc : bool) (s : shared) : list (list val) 
   end.
 
 Definition run_gen (B : nat) (fxa fxc : bool) (c : case) : (@config shared local) * list (N * N) :=
-  exec_full (step B fxa fxc) site rr_fuel (init_config (fst c)) (map N.to_nat (snd c)).
+  exec_full (step B fxa fxc) site rr_fuel (init_config (progs_of c)) (map N.to_nat (snd c)).
 
 Definition out_gen (B : nat) (fxa fxc : bool) (c : case) : OUT :=
   let '(cf, tr) := run_gen B fxa fxc c in
@@ -51,7 +62,7 @@ Definition out_eqb (a b : OUT) : bool :=
   && list_eqb (list_eqb val_eqb) f1 f2 && (n1 =? n2).
 
 Definition spec_ok (c : case) (o : OUT) : bool :=
-  let '(tr, rss, done, final, anom) := o in spec_run (fst c) tr rss done final anom.
+  let '(tr, rss, done, final, anom) := o in spec_run (progs_of c) tr rss done final anom.
 
 (* open known finding C05-late-claim (class 1): in the model's execution of the case some
    fetch_add returns an index < B on a block that is not reachable from `tail` any more *)
